@@ -1,5 +1,5 @@
 (* C06 — the stream reader delivers every well-formed frame, in order, typed by protocol. *)
-From PyUbx Require Import Base Bytes Reader Reader_generic Reader_file Reader_props.
+From PyUbx Require Import Base Bytes Reader Socket Reader_generic Reader_file Reader_props Socket_lemmas.
 Open Scope N_scope.
 
 (* For a stream made of frames of the three protocols (UBX with any checksum bytes, NMEA
@@ -26,3 +26,16 @@ Example C06_nonvacuous :
   Forall (wf_chunk (fun b => (b =? 71) || (b =? 80)))
     [CUbx 1 2 [] [3; 10]; CNoise [0; 255]; CNmea 71 [78; 71]; CRtcm 0 0 [] [71; 234; 75]; CRtcm 0 2 [5; 6] [1; 2; 3]].
 Proof. exact c06_nonvacuous. Qed.
+
+(* the same stream arriving through a SOCKET, for every segmentation into recv() results (hence every bufsize),
+   followed by any closes / timeouts / OSErrors: exactly the same items *)
+Theorem C06_clean_socket : forall (P : Type) (parse : N -> bytes -> result P) (nmea_hdr : N -> bool) c cs l,
+  Forall (wf_chunk nmea_hdr) cs -> parse_protocol_only parse -> quitonerror c <> 2 ->
+  tail_fail l -> chunks l = flatten cs ->
+  items (sock_run parse nmea_hdr c l) = deliver_all parse c cs.
+Proof.
+  intros P parse nmea_hdr c cs l Hw Hp Hq Ht Hc.
+  rewrite (c10_refines_file_gen parse nmea_hdr c l Ht), Hc.
+  exact (proj1 (@c06_clean P parse nmea_hdr c cs Hw Hp Hq)).
+Qed.
+Print Assumptions C06_clean_socket.
